@@ -12,6 +12,7 @@ import (
 	"io"
 	"net/http"
 	"sync/atomic"
+	"time"
 )
 
 var svPanicInHandler bool
@@ -153,3 +154,36 @@ func svAnyFrame(maxPayload int) {
 
 func VerifC10_serve_any_frame_quick()    { svAnyFrame(2) }
 func VerifC10_serve_any_frame_thorough() { svAnyFrame(5) }
+
+// the client goes SILENT (no hang-up) after every byte offset of a valid session, with or without an
+// idle timeout configured: time passes - whatever timers the server armed for that situation expire
+// (preface timeout, first-SETTINGS timeout, idle timeout, GOAWAY close timer); if that makes the
+// server give the connection up, everything of it must be gone although the client is still there;
+// otherwise the client finally hangs up and everything must be gone then.
+func svStalls(chunks []int) {
+	atomic.StoreInt32(&svHandledCtr, 0)
+	svPanicInHandler = false
+	srv := &Server{}
+	if vBool("idleTimeoutConfigured") {
+		srv.IdleTimeout = 90 * time.Second
+	}
+	s := svStart(srv, &http.Server{}, http.HandlerFunc(svEcho))
+	in := svScript(vRange("script", 0, svScripts-1))
+	s.c.chunk = chunks[vRange("chunk", 0, len(chunks)-1)]
+	cut := vRange("cut", 0, len(in))
+	s.c.feed(in[:cut])
+	vYield()
+	vReach("client-silent")
+	svTimePasses()
+	svTimePasses() // timers armed by what the first round did (GOAWAY close timer)
+	if s.returned() {
+		vReach("server-gave-the-connection-up")
+		vAssert(s.c.closed(), "connection-closed")
+		vAssert(vLiveThreads() == 0, "no-goroutine-left-behind-while-client-still-connected")
+	}
+	s.c.hangup()
+	svFinish(s)
+}
+
+func VerifC11_serve_stalls_quick()    { svStalls([]int{0}) }
+func VerifC11_serve_stalls_thorough() { svStalls([]int{0, 5}) }
